@@ -28,8 +28,8 @@ def limit_scenarios(tier):
     # locals: a function with n lets; the last let has index n-1 (DefineLocal operand)
     for n in (254, 255, 256, 257, 300):
         body = " ".join("let v%d = %d;" % (i, i % 7) for i in range(n))
-        src = "let OBS = [];\nfn f() { %s v%d + v0 }\npush(OBS, f());\n" % (body, n - 1)
-        out.append(("locals=%d" % n, "DefineLocal", 1, n - 1, src, ((n - 1) % 7), ["ok"]))
+        src = "let OBS = [];\nfn f() { %s 1000 + v%d + v0 }\npush(OBS, f());\n" % (body, n - 1)
+        out.append(("locals=%d" % n, "DefineLocal", 1, n - 1, src, 1000 + ((n - 1) % 7), ["ok"]))
     # call arguments: Call operand = n
     for n in (254, 255, 256, 257):
         ps = ",".join("p%d" % i for i in range(n))
@@ -96,7 +96,7 @@ def limit_scenarios(tier):
     for nst in (16000, 16400):
         prefix = " ".join("%d;" % (j % 10) for j in range(nst))
         for name, (construct, want) in far.items():
-            if tier == "quick" and nst == 16000 and name not in ("loop-break", "labelled-continue", "match"):
+            if tier == "quick" and nst == 16000 and name not in ("loop-break", "labelled-continue", "match", "and-or"):
                 continue
             src = "let OBS = [];\nfn f(c) { %s %s }\npush(OBS, f(false));\n" % (prefix, construct)
             out.append(("jump-far-%s~%d" % (name, nst * 4 + 20), "Jump", 1, nst * 4 + 20, src, want, ["ok"]))
